@@ -226,7 +226,7 @@ func Payload(t *rapid.T, max int, label string) []byte {
 // OpKinds is the namespace-operation alphabet of C01 (weights by repetition).
 var OpKinds = []string{
 	"mkdir", "mkdir", "mkdirall", "openfile", "openfile", "openfile", "create", "writefile", "writefile",
-	"remove", "remove", "removeall", "rename", "rename", "rename", "chmod", "chtimes", "stat", "readdir", "readfile",
+	"remove", "remove", "removeall", "rename", "rename", "rename", "chmod", "chtimes", "stat", "lstatorstat", "readdir", "readfile",
 }
 
 // Op draws one namespace operation against the tree.
@@ -268,7 +268,7 @@ func Op(t *rapid.T, tr Tree, names []string, maxDepth int, rootMut bool) ops.Op 
 	case "chtimes":
 		op.P = Path(t, tr, names, maxDepth, true, "p")
 		op.Sec = int64(rapid.IntRange(1_000_000_000, 2_000_000_000).Draw(t, "sec"))
-	case "stat", "readdir", "readfile":
+	case "stat", "lstatorstat", "readdir", "readfile":
 		op.P = Path(t, tr, names, maxDepth, true, "p")
 	}
 	return op
